@@ -74,6 +74,10 @@ pub fn build<C: BlsSignatureImpl + Clone>(lib: &Lib, c: &Value, rng: &mut ChaCha
     let msg = msg_of_len(lib.conc, "M", n);
     let id = lib.msg::<C>(&c["id"]);
     let ct0 = pk.encrypt_time_lock(scheme0, &msg, &id).map_err(|e| format!("seal refused: {e}"))?;
+    // the genuine ciphertext is opened with the genuine signature first (same thread)
+    if let Ok(gs) = lib.sk::<C>(k).sign(scheme0, &id) {
+        let _ = ct0.decrypt(&gs).is_some();
+    }
     let other = pk.encrypt_time_lock(scheme0, &msg, &id).map_err(|e| format!("seal refused: {e}"))?;
     let ops = geta(c, "ops");
     let mut cur = vec![ct0];
